@@ -231,14 +231,14 @@ func (w *World) Enabled() []Event {
 	}
 	if w.Budget[BTransfer] > 0 {
 		for _, p := range w.Sc.TransferPairs {
-			if !w.Nodes[p[0]-1].Stopped {
+			if int(p[0]) <= len(w.Nodes) && !w.Nodes[p[0]-1].Stopped {
 				out = append(out, Event{Kind: EvTransfer, Node: p[0], Peer: p[1]})
 			}
 		}
 	}
 	if w.Budget[BUnreach] > 0 {
 		for _, p := range w.Sc.UnreachPairs {
-			if !w.Nodes[p[0]-1].Stopped && w.Nodes[p[0]-1].vs().State == raft.StateLeader {
+			if int(p[0]) <= len(w.Nodes) && !w.Nodes[p[0]-1].Stopped && w.Nodes[p[0]-1].vs().State == raft.StateLeader {
 				out = append(out, Event{Kind: EvUnreachable, Node: p[0], Peer: p[1]})
 			}
 		}
